@@ -166,7 +166,11 @@ def bulk_strategy(draw):
         rows.append(kw)
     fault = draw(st.sampled_from(BULK_FAULTS)) if draw(st.integers(0, 3)) == 0 else None
     return {"fn": bfn, "rows": rows, "fault": fault, "pos": draw(st.integers(0, 5)), "scalar_opts": draw(st.booleans()),
-            "with_index": draw(st.integers(0, 3)) == 0}
+            "with_index": draw(st.integers(0, 3)) == 0,
+            # how per-element values are handed over: the bulk functions take "iterables" - lists, arrays and pandas Series
+            # (a Series is used by position unless it is labelled with exactly the new indices)
+            "container": draw(st.sampled_from(["list", "list", "array", "series_range", "series_new", "series_shift",
+                                               "series_foreign"]))}
 
 
 @st.composite
@@ -567,7 +571,27 @@ def run_bulk(net, op, findings, step, history, case):
     before = snapshot(net)
     twin = copy.deepcopy(net)
     n_before = len(net[tbl]) if tbl in net else 0
-    ctx = {"step": step, "fn": bfn, "kwargs": {k: repr(v)[:80] for k, v in kw.items()}, "fault": fault if expect_reject else None}
+    cont = op.get("container", "list")
+    if cont != "list" and not expect_reject:
+        nrow = len(rows)
+        if "index" in kw:
+            new_idx = list(kw["index"])
+        else:
+            start = int(max(net[tbl].index)) + 1 if tbl in net and len(net[tbl]) else 0
+            new_idx = list(range(start, start + nrow))
+        for a, v in list(kw.items()):
+            if not isinstance(v, list) or len(v) != nrow or a == "index" or a == "geodata":
+                continue
+            numeric = all(isinstance(x, (int, float, bool)) and not isinstance(x, str) for x in v)
+            if cont == "array":
+                if numeric or a.endswith("junctions"):
+                    kw[a] = np.array(v)
+            elif numeric and not a.endswith("junctions") and a not in ("elements",):
+                sidx = {"series_range": list(range(nrow)), "series_new": new_idx, "series_shift": [i + 1 for i in new_idx],
+                        "series_foreign": [100000 + 7 * i for i in range(nrow)]}[cont]
+                kw[a] = pd.Series(v, index=sidx)
+    ctx = {"step": step, "fn": bfn, "kwargs": {k: repr(v)[:80] for k, v in kw.items()}, "fault": fault if expect_reject else None,
+           "container": cont}
     try:
         ret = getattr(pp, bfn)(net, **copy.deepcopy(kw))
         raised = None
@@ -694,6 +718,8 @@ def evaluate(case):
     for op, h in zip(case["ops"], history):
         if h == "rejected" and op.get("fault"):
             labels.add("fault:" + op["fault"])
+        if op.get("bulk"):
+            labels.add("bulk_values_as:" + op.get("container", "list"))
     return Outcome(findings=findings, labels=labels, nontrivial=rej_after_acc or "bulk_accepted" in history,
                    sample={"sector": case["sector"], "fluid": case["fluid"], "ops": [dict(fn=o["fn"], fault=o.get("fault")) for o in case["ops"]],
                            "history": history})
@@ -703,5 +729,16 @@ def run_shard(coll, tier, seed, shard, nshards, known):
     run_given(case_strategy(tier), evaluate, EX[tier], derive_seed("C16", seed, shard), coll, known, shrink_s=40)
 
 
+def _retuple(x):
+    """a replay file is JSON: the symbolic references ("J", k) / ("STD", k) / ("NEW", k) come back as lists"""
+    if isinstance(x, list) and len(x) == 2 and x[0] in ("J", "STD", "NEW") and isinstance(x[1], int):
+        return (x[0], x[1])
+    if isinstance(x, list):
+        return [_retuple(v) for v in x]
+    if isinstance(x, dict):
+        return {k: _retuple(v) for k, v in x.items()}
+    return x
+
+
 def replay(case):
-    return evaluate(case)
+    return evaluate(_retuple(case))
